@@ -203,6 +203,83 @@ class CombineScatter(FragmentTask):
             ctx.oblige(f"post.box-{box}-gets-the-offset-written-for-it", to_z3(mo.elem((box,))) == want, "P")
 
 
+class CombineLevel(FragmentTask):
+    """The body of the level loop of combine() as a whole in the box-by-box modes, from the mode dispatch to the loop storing the
+    new offsets, with the task generator and the index map executed as part of it (real code; skeleton: 3 boxes, two files in
+    each plotfile, the second plotfile assigning its boxes to files differently; symbolic distinct offsets).  The worker is its
+    contract: for its t-th entry it reads the FAB at offst_r1[t] of bfile_r1 and the FAB at offst_r2[t] of bfile_r2[t] and
+    returns, at position t, the offset it wrote the merged FAB at.  Afterwards every box b is served by exactly one entry - with
+    b's file and offset in the FIRST plotfile and b's file and offset in the SECOND - and holds the offset returned for it."""
+    prop = "C06"
+    reach = "S"
+    qual = CB + "combine"
+    first = staticmethod(_src("if cbmode == "))
+    last = staticmethod(_src("for file_idxs, offsets in zip(pck1.map_bfile_offsets(lv), new_offsets)"))
+    inline = (PC + "map_bfile_offsets", PC + "by_matched_offsets_output", PC + "by_binfile_output")
+
+    def __init__(self, mode):
+        self.mode = mode
+        self.name = f"combine.level-body[{mode}]"
+
+    def setup(self, ex):
+        ctx = ex.ctx
+        o1 = [z3.Int(f"off1_{i}") for i in range(3)]
+        o2 = [z3.Int(f"off2_{i}") for i in range(3)]
+        ctx.assume(z3.And(z3.Distinct(*o1), z3.Distinct(*o2), *[x >= 0 for x in o1 + o2]))
+        files2 = FILES2_OTHER if self.mode == "bybox" else FILES2_SAME
+        p1, p2 = cooker(1, FILES1, o1), cooker(2, files2, o2)
+        p1.attrs["boxes"] = [[None, None, None]]
+        NEW = z3.Function("NEWOFF", I, I, I)
+        calls = []
+
+        def worker(ex_, args, kw):
+            call = args[0]
+            k = len(calls)
+            a1 = ex_.as_iterable(call.get("offst_r1"))
+            a2 = ex_.as_iterable(call.get("offst_r2"))
+            r2 = call.get("bfile_r2")
+            r2 = list(ex_.as_iterable(r2)) if not isinstance(r2, (str,)) and not hasattr(r2, "parts") else [r2] * len(a1)
+            calls.append({"r1": call.get("bfile_r1"), "r2": r2, "w": call.get("bfile_w"), "o1": list(a1), "o2": list(a2)})
+            if not (len(a1) == len(a2) == len(r2)):
+                raise SymRaise("ValueError", "per-box lists of different lengths")
+            return [NEW(k, t) for t in range(len(a1))]
+        self.contracts = {CB + "parallel_combine_by_boxes_offsets": worker, CB + "parallel_combine_by_binfile_offsets": worker}
+        pool = Record("Pool")
+        pool.held = True
+        frame = {"pck1": p1, "pck2": p2, "lv": 0, "cbmode": self.mode, "pool": pool, "pltout": "out", "vidxs1": Opaque("v1", "obj"),
+                 "vidxs2": Opaque("v2", "obj")}
+        return {"frame": frame, "o1": o1, "o2": o2, "files2": files2, "NEW": NEW, "calls": calls}
+
+    def post(self, ex, inp, out):
+        ctx = ex.ctx
+        ctx.oblige("raises-nothing", out.kind == "ret", "P", note=str(out.exc) if out.kind != "ret" else "")
+        if out.kind != "ret":
+            return
+        from pyvc.ops import as_ndarray, compare
+        from pyvc.libos import os_getcwd, join2
+        cwd = os_getcwd(ex, [], {})
+        mo = as_ndarray(out.value["mapped_offsets"])
+        calls = inp["calls"]
+        ws = [str(c["w"]) for c in calls]
+        ctx.oblige("post.no-output-file-written-by-two-tasks", len(set(ws)) == len(ws), "P", note=str(ws))
+        for b in range(3):
+            f1, f2 = join2(ex, cwd, FILES1[b]), join2(ex, cwd, inp["files2"][b])
+            wfile = join2(ex, join2(ex, join2(ex, cwd, "out"), "Level_0"), FILES1[b].split("/")[-1])
+            hits = []
+            for k, c in enumerate(calls):
+                if not (compare(ex, "Eq", c["r1"], f1) is True and compare(ex, "Eq", c["w"], wfile) is True):
+                    continue
+                for t in range(len(c["o1"])):
+                    if compare(ex, "Eq", c["r2"][t], f2) is not True:
+                        continue
+                    hits.append((zand(to_z3(c["o1"][t]) == inp["o1"][b], to_z3(c["o2"][t]) == inp["o2"][b]), inp["NEW"](k, t)))
+            conds = [to_z3(h) for h, _ in hits]
+            ctx.oblige(f"post.box-{b}-is-served-by-exactly-one-entry-reading-its-own-fab-in-both-plotfiles",
+                       z3.PbEq([(c, 1) for c in conds], 1) if conds else False, "P")
+            ctx.oblige(f"post.box-{b}-gets-the-offset-written-for-it",
+                       zor(*[zand(h, to_z3(mo.elem((b,))) == n) for h, n in hits]) if hits else False, "P")
+
+
 class FieldIndices(FragmentTask):
     """combine(), the statements turning the selected names into component indices: vidxs1[t] is the component of vars1[t] in
     the first plotfile and vidxs2[t] that of vars2[t] in the second, in the order of the name lists - the order the output
@@ -292,7 +369,7 @@ class SameMesh(Task):
 
 
 def parent_tasks(tier):
-    return [ModeDecision(True), ModeDecision(False), OffsetMap(), MatchedOffsets(), BinfileOutput(), CombineScatter(),
+    return [ModeDecision(True), ModeDecision(False), OffsetMap(), MatchedOffsets(), BinfileOutput(), CombineScatter(), CombineLevel("bybox"), CombineLevel("byoffset"),
             SameMesh(1, 1), SameMesh(0, 0), SameMesh(1, 0), FieldIndices(["gamma", "alpha"], ["tau"]), FieldIndices(["beta"], ["tau", "sigma"]), FieldIndices(["alpha", "beta", "gamma"], ["sigma", "tau"])]
 
 
